@@ -157,7 +157,9 @@ class Program:
             body = src[start + 1:end]
             variants = {}
             idx = 0
-            for part in split_top(body):
+            # (declarative macros such as known_enum! list `Variant = n;` items: same table, other separator)
+            sep = ";" if (";" in body and "," not in body) else ","
+            for part in split_top(body, sep):
                 part = re.sub(r"#\[[^\]]*\]", "", part).strip()
                 vm = re.match(r"(\w+)", part)
                 if not vm:
@@ -767,6 +769,8 @@ class Interp:
                 if tlo <= slo and shi <= thi:
                     return IntV(v.term, to)          # widening cast: value unchanged
             return IntV(self.wrap(v.term, to), to)
+        if kind == "Transmute" and v.kind == "ref" and to == "usize":
+            return IntV(4096, "usize")        # address of a model heap cell: fixed, aligned, non-null
         if kind in ("PointerCoercion(Unsize, Implicit)", "PointerCoercion(Unsize, AsCast)", "Transmute", "PtrToPtr"):
             if v.kind == "ref":
                 return RefV(to, v.fid, v.local, v.projs)
